@@ -139,6 +139,7 @@ type pProject struct {
 	Determinism int           `json:"determinism,omitempty"` // C13: number of brand-new sessions whose bytes are compared
 	Echo        bool          `json:"echo,omitempty"`        // rig: controller methods record their arguments (package rigrec)
 	GroupParams bool          `json:"groupParams,omitempty"` // print consecutive same-typed parameters as one group: (a, b string, n int)
+	RuntimeAlias bool `json:"runtimeAlias,omitempty"` // the controllers' files import the runtime package under another name (`gleece "…/runtime"`)
 	Site        *pSite        `json:"site,omitempty"`
 }
 
@@ -402,7 +403,13 @@ func writeProject(p pProject, dir string) (map[string]string, error) {
 		body := strings.Join(fb.decls, "\n")
 		imports := []string{}
 		if strings.Contains(body, "runtime.") {
-			imports = append(imports, `"github.com/gopher-fleece/runtime"`)
+			if p.RuntimeAlias {
+				// natural when the file also needs Go's own `runtime`: the embedded type is `gleece.GleeceController`
+				body = strings.ReplaceAll(body, "runtime.", "gleece.")
+				imports = append(imports, `gleece "github.com/gopher-fleece/runtime"`)
+			} else {
+				imports = append(imports, `"github.com/gopher-fleece/runtime"`)
+			}
 		}
 		if strings.Contains(body, "context.") {
 			imports = append(imports, `"context"`)
@@ -716,6 +723,7 @@ type projOut struct {
 	Repeats     []string `json:"repeats,omitempty"`     // C19: "same"/"different" canonical IR after each repeated analysis on ONE pipeline
 	Counts      []int    `json:"graphCounts,omitempty"` // number of graph nodes after the first and after each repeated analysis
 	Fresh       string   `json:"fresh,omitempty"`       // brand-new pipeline vs the first analysis
+	Misfiled    []string `json:"misfiled,omitempty"`    // declared types / controllers whose graph node is keyed under ANOTHER file than the one declaring them (a cached file version that is not the file's own)
 	Determ      *pDeterm `json:"determinism,omitempty"` // C13
 }
 
@@ -863,6 +871,37 @@ func runProject(p pProject) (out projOut) {
 	}
 	if p.Repeat > 0 {
 		out.Counts = append(out.Counts, countNodes())
+		// cache transparency: the file version a node is keyed by comes from the metadata cache; computed afresh it is the
+		// version of the file that DECLARES the symbol
+		declared := map[string]string{}
+		for _, t := range p.Types {
+			if !t.External {
+				n := t.Name
+				if i := strings.Index(n, "["); i >= 0 {
+					n = n[:i]
+				}
+				declared[t.Pkg+"."+n] = t.Pkg + "/" + t.File
+			}
+		}
+		for _, c := range p.Controllers {
+			declared[c.Pkg+"."+c.Name] = c.Pkg + "/" + c.File
+		}
+		for _, nd := range pipe.Graph().FindByKind(common.SymKindStruct, common.SymKindEnum, common.SymKindAlias, common.SymKindController) {
+			fp := filepath.ToSlash(nd.Id.FilePath)
+			if fp == "" || nd.Id.IsUniverse || nd.Id.IsBuiltIn {
+				continue
+			}
+			parts := strings.Split(fp, "/")
+			if len(parts) < 2 {
+				continue
+			}
+			rel := parts[len(parts)-2] + "/" + parts[len(parts)-1]
+			if want, ok := declared[parts[len(parts)-2]+"."+nd.Id.Name]; ok && want != rel {
+				// the same name may be declared in two files of one package only once: a mismatch is a wrong key
+				out.Misfiled = append(out.Misfiled, nd.Id.Name+": keyed under "+rel+", declared in "+want)
+			}
+		}
+		sort.Strings(out.Misfiled)
 	}
 	for i := 0; i < p.Repeat; i++ {
 		if err := pipe.GenerateGraph(); err != nil {
